@@ -236,6 +236,11 @@ class ResolveAnchorIds(Transform):
                     refnode += nodes.inline(
                         implicit_title, implicit_title, classes=["std", "std-ref"]
                     )
+                elif not refnode.children:
+                    # (a heading whose title has no text: show the destination, as for explicit targets)
+                    refnode += nodes.inline(
+                        "#" + target, "#" + target, classes=["std", "std-ref"]
+                    )
                 continue
 
             # if still not found, and using sphinx, then create a pending_xref
